@@ -26,8 +26,32 @@ def plans(quick):
     return p
 
 
+def cascade_engine(chk, quick):
+    """Engine level: TLC-enumerated result streams -> the real VisualVoting::winners, every permutation."""
+    from vlib import SPEC
+    V = SPEC / "voting"
+    for name, consts in ([("vv-2", {"NT": 2, "MinVs": {1}, "Thr": 3})] if quick else
+                         [("vv-2", {"NT": 2, "MinVs": {1, 2}, "Thr": 3}), ("vv-2-thr1", {"NT": 2, "MinVs": {1, 2}, "Thr": 1})]):
+        cfg = vlib.write_cfg(chk.workdir / f"{name}.cfg", consts, invariants=["Emit"])
+        r = vlib.tlc(V / "GenVV.tla", cfg, name, chk.workdir, workers=8, timeout=1800)
+        vlib.tlc_must_pass(r, name)
+        chk.add_tlc(name, r)
+        args = ["replay", "visvote"]
+        rep = vlib.run_vh(args, [r.out])
+        chk.add_report(name, rep)
+        chk.classify("visvote", args, rep)
+        # comparisons are live: a perturbed positional threshold must produce mismatches
+        if name == "vv-2":
+            rp = vlib.run_vh(args + ["--perturb-thr", "1.5"], [r.out], stride=4)
+            chk.witness("cascade_replay_detects_perturbed_threshold", rp["mismatches"] > 0)
+    cfg = vlib.write_cfg(chk.workdir / "vv-w.cfg", {"NT": 2, "MinVs": {1}, "Thr": 3}, invariants=["W_NeverContested"])
+    rw = vlib.tlc(V / "GenVV.tla", cfg, "vv-w", chk.workdir, workers=4, timeout=300)
+    chk.witness("W_NeverContested", vlib.expect_violation(rw, "W_NeverContested"))
+
+
 def run(chk):
     quick = chk.tier == "quick"
+    cascade_engine(chk, quick)
     for name, kw, sim in plans(quick):
         r, c = tc.generate_visual(chk, name, simulate=sim, **kw)
         kinds = ("visual", "batchvisual") if (not quick or name in ("v-sim7", "v-d3")) else ("visual",)
@@ -37,4 +61,11 @@ def run(chk):
 
 
 def replay(payload):
+    if payload.get("engine") == "visvote":
+        rep = vlib.replay_single(payload["vh"], payload["case"], vlib.WORK / "C12")
+        if rep["mismatches"]:
+            print(f"VIOLATION property=C12 replay=  # reproduced: {list(rep['by_sig'])}")
+            return 1
+        print("replay: no mismatch")
+        return 0
     return tc.replay_payload("C12", payload)
